@@ -500,6 +500,15 @@ func (fc *FuncCtx) formula0(v ssa.Value) *bddNode {
 				return fc.A.atom(name, "ok", fc, t, []ssa.Value{t.X, t.Index}, fc.AP(t.X), fc.AP(t.Index))
 			}
 		case *ssa.Call:
+			// found flag of strings.CutPrefix/CutSuffix: the atom of the equivalent HasPrefix/HasSuffix call
+			if sc := t.Call.StaticCallee(); sc != nil && x.Index == 1 && len(t.Call.Args) == 2 {
+				has := map[string]string{"strings.CutPrefix": "strings.HasPrefix", "strings.CutSuffix": "strings.HasSuffix"}[sc.String()]
+				if has != "" {
+					a0, a1 := fc.AP(t.Call.Args[0]), fc.AP(t.Call.Args[1])
+					name := "call:" + has + "(" + a0 + "," + a1 + ")"
+					return fc.A.atom(name, "call", fc, t, append([]ssa.Value{}, t.Call.Args...), has, a0, a1)
+				}
+			}
 			// the boolean component of a side-effect-free helper's result (value, ok): case split over its returns
 			if isBoolType(x.Type()) {
 				if f, ok := fc.callResultGated(x, func(sub *FuncCtx, rv ssa.Value) *bddNode { return sub.Formula(rv) }); ok {
@@ -1071,7 +1080,12 @@ func (fc *FuncCtx) callResultGated(v ssa.Value, f func(sub *FuncCtx, rv ssa.Valu
 		return nil, false
 	}
 	sc := call.Call.StaticCallee()
-	if sc == nil || fc.depth >= fc.A.MaxDepth || len(sc.Blocks) == 0 || !fc.A.isPureModuleFunc(sc) {
+	if sc == nil || fc.depth >= fc.A.MaxDepth || len(sc.Blocks) == 0 {
+		return nil, false
+	}
+	// side-effect-free helpers, and helpers the rule's policy analyses as part of the caller (their path conditions speak
+	// about call results that are named per call site)
+	if !fc.A.isPureModuleFunc(sc) && !(fc.A.Inline != nil && fc.A.Inline(sc)) {
 		return nil, false
 	}
 	sub := fc.inlineCtx(sc, call.Call.Args, call)
